@@ -1036,6 +1036,8 @@ class Interp:
                 return getattr(obj, name)
         if isinstance(obj, (str, tuple, set)):
             return getattr(obj, name)
+        if isinstance(obj, slice) and name in ("start", "stop", "step"):
+            return getattr(obj, name)
         if isinstance(obj, Sym):
             if name in ("real",):
                 return obj
@@ -1624,7 +1626,8 @@ def make_builtins(I: Interp):
         "any": b_any, "all": b_all, "zip": b_zip, "enumerate": b_enumerate, "list": b_list, "tuple": b_tuple,
         "sorted": b_sorted, "hasattr": b_hasattr, "getattr": b_getattr, "setattr": b_setattr,
         "callable": b_callable, "type": b_type, "divmod": b_divmod, "round": b_round, "str": b_str,
-        "set": b_set, "frozenset": lambda x=(): frozenset(I.concrete_iter(x, "frozenset")), "dict": b_dict, "pow": b_pow, "id": b_id, "iter": b_iter, "reversed": b_reversed,
+        "slice": slice, "set": b_set, "frozenset": lambda x=(): frozenset(I.concrete_iter(x, "frozenset")), "dict": b_dict, "pow": b_pow, "id": b_id, "iter": b_iter, "reversed": b_reversed,
+        "issubclass": lambda a, b: isinstance(a, ClassVal) and isinstance(I._force(b), ClassVal) and a.is_subclass(I._force(b)),
         "True": True, "False": False, "None": None, "object": Ext("object"), "callable_": None,
         "NotImplementedError": exc("NotImplementedError"), "ValueError": exc("ValueError"),
         "TypeError": exc("TypeError"), "AttributeError": exc("AttributeError"),
